@@ -121,6 +121,56 @@ fn main() {
         .collect();
     let concurrent: Vec<Vec<String>> = handles.into_iter().map(|h| h.join().unwrap()).collect();
     assert_eq!(sequential, concurrent, "concurrent evaluations differ from sequential ones");
+
+    // abandonment and migration under real concurrency: every thread starts an evaluation, polls it
+    // once (it is pending inside a user function), then either drops it or hands the pending future
+    // to another thread that finishes it, while a third party keeps evaluating the same ruleset
+    let (tx, rx) = std::sync::mpsc::channel::<(usize, std::pin::Pin<Box<dyn Future<Output = Vec<String>> + Send>>)>();
+    let starters: Vec<_> = inputs
+        .iter()
+        .cloned()
+        .enumerate()
+        .map(|(i, facts)| {
+            let rs = rs.clone();
+            let tx = tx.clone();
+            std::thread::spawn(move || {
+                let rs2 = rs.clone();
+                let f2 = facts.clone();
+                let mut fut: std::pin::Pin<Box<dyn Future<Output = Vec<String>> + Send>> = Box::pin(async move {
+                    rs2.evaluate_value(&f2)
+                        .await
+                        .unwrap()
+                        .into_iter()
+                        .map(|o| match o.value {
+                            Ok(v) => format!("{}={v:?}", o.rule.name()),
+                            Err(e) => format!("{}!{e}", o.rule.name()),
+                        })
+                        .collect()
+                });
+                let mut cx = Context::from_waker(Waker::noop());
+                assert!(fut.as_mut().poll(&mut cx).is_pending(), "first poll should suspend in `twice`");
+                if i == 0 {
+                    drop(fut); // abandoned midway
+                } else {
+                    tx.send((i, fut)).unwrap(); // finished elsewhere
+                }
+                summarise(&rs, &facts)
+            })
+        })
+        .collect();
+    drop(tx);
+    let finisher = std::thread::spawn(move || {
+        let mut out = vec![];
+        for (i, fut) in rx {
+            out.push((i, block_on(fut)));
+        }
+        out
+    });
+    let after: Vec<Vec<String>> = starters.into_iter().map(|h| h.join().unwrap()).collect();
+    assert_eq!(sequential, after, "evaluations after an abandoned / migrated one differ");
+    for (i, got) in finisher.join().unwrap() {
+        assert_eq!(sequential[i], got, "evaluation finished on another thread differs");
+    }
     // a standalone expression evaluated concurrently as well
     let e = Arc::new(Expr::mult(Expr::reff("x"), Expr::value(3)));
     let hs: Vec<_> = inputs
